@@ -351,3 +351,17 @@ P = {
   declined="exactness of offsets",
   technique="origin dataflow + sort-key sign analysis + fill-order rule"),
 }
+
+# ---- general clause families (sa/rules/gen.py): the same rule applied to every function of the property's mechanism
+GENERAL = {
+    "T": "(general) values that may be model objects or converted match values (attribute values read through the metamodel, parent links, results of scope providers / object processors / lookups) are tested with `is None`, never for truth, in every function of this property's mechanism",
+    "M": "(general) memo keys: wherever a computation is skipped because a key was seen before (dict / set / attribute used as a memo), every input of the skipped computation that can vary during the memo's lifetime is determined by the key",
+    "O": "(general) every metamodel option is stored verbatim from the constructor parameter of the same name and read under that name",
+    "S": "(general) Arpeggio expression objects are never shallow-copied (a shallow copy shares the packrat table `_result_cache` and the child list with its original)",
+}
+def _add_general():
+    from sa.rules import gen
+    for fam, props_ in gen.families().items():
+        for p in props_:
+            P[p]["decided"].setdefault("%s.%s" % (p, fam), GENERAL[fam])
+_add_general()
